@@ -322,6 +322,7 @@ def add_tag_newline_handling(
             result = base_wrapper(text, initial_indent, subsequent_indent)
             # Fix multiline tags: ensure closing tag on own line when opening spans lines.
             # This applies in both atomic and wrap modes to work around Markdoc parser bug.
+            result = _fix_closing_tag_spacing(result)
             result = _fix_multiline_opening_tag_with_closing(result)
             return result
 
@@ -330,6 +331,7 @@ def add_tag_newline_handling(
         # If only one line after split, same as above
         if len(lines) <= 1:
             result = base_wrapper(text, initial_indent, subsequent_indent)
+            result = _fix_closing_tag_spacing(result)
             result = _fix_multiline_opening_tag_with_closing(result)
             return result
 
@@ -372,6 +374,7 @@ def add_tag_newline_handling(
         # If we only have one segment, no tag boundaries were found
         if len(segments) == 1:
             result = base_wrapper(text, initial_indent, subsequent_indent)
+            result = _fix_closing_tag_spacing(result)
             result = _fix_multiline_opening_tag_with_closing(result)
             return result
 
